@@ -632,7 +632,7 @@ func genPendingCluster(r *lib.Rng) *Case {
 // edge between START/END, between two lambdas, through a passthrough node, at a branch
 // condition, at a branch typing its passthrough start node; type identity at a state
 // handler; the converter behind the any-typed state handler of a passthrough node), as the smallest graph that has it.
-const pairShapes = 9
+const pairShapes = 10
 
 func genPair(i int) *Case {
 	n := len(allTypes)
@@ -703,6 +703,17 @@ func genPair(i int) *Case {
 		add(Op{K: "edge", S: 0, E: 2})
 		add(Op{K: "edge", S: 2, E: 3})
 		add(Op{K: "edge", S: 3, E: 1})
+	case 9: // a fan-in: START:a -> n2:(a->a), START -> n3:(a->a), both -> n4:(b->b) -> END:b.  The two values reach n4 in
+		// the same superstep, each over its own connection of types (a, b): a value that is not assignable on ONE of
+		// them must end the run with the type error, whatever arrives over the other (round 5, mutant E)
+		add(Op{K: "node", Key: 2, In: a, Out: a, Kind: (i / pairShapes) % 4})
+		add(Op{K: "node", Key: 3, In: a, Out: a, Kind: (i / pairShapes / 4) % 4})
+		add(Op{K: "node", Key: 4, In: b, Out: b})
+		add(Op{K: "edge", S: 0, E: 2})
+		add(Op{K: "edge", S: 0, E: 3})
+		add(Op{K: "edge", S: 2, E: 4})
+		add(Op{K: "edge", S: 3, E: 4})
+		add(Op{K: "edge", S: 4, E: 1})
 	}
 	add(Op{K: "compile"})
 	return c
